@@ -66,7 +66,7 @@ type C07 struct{}
 
 func (C07) ID() string { return "C07" }
 func (C07) Rule() string {
-	return "a scenario = 2-8 Java files (generated conventional projects with colliding identifiers, or real files from _fixtures) and 1-3 simulated processes each executing 2-7 passes (ident/full/bs/api over seeded permutations, subsets and duplications of the file list; call/rcall on the project's model) in one OS process; each result is compared with the composition of the per-file results of pristine single-operation processes (identifier set and model held fixed). Non-trivial = at least one pass delivered >=2 files or ran as a later operation of its process, and at least two files were judged; distinct = by content hash."
+	return "a scenario = 2-8 Java files (generated conventional projects with colliding identifiers, or real files from _fixtures) and 1-3 simulated processes each executing 2-7 passes (ident/full/bs/api over seeded permutations, subsets and duplications of the file list, with directory noise, four ways of naming the directory, re-scans of a directory after a nested change or a same-mtime in-place edit; call/rcall on the project's model and on synthetic models) in one OS process; each result is compared with the composition of the per-file results of pristine single-operation processes (identifier set and model held fixed). Non-trivial = at least one pass delivered >=2 files or ran as a later operation of its process, and at least two files were judged; distinct = by content hash."
 }
 func (C07) Budget(tier string) (int, time.Duration) {
 	if tier == "thorough" {
